@@ -74,6 +74,20 @@ def streams(tier, rng):
         c = gen.scenario(256, 8, [(1, b'Q?', ';'.join(ops))], [('I', b'Q?\n')])
         scases.append(c)
         sinfo[c] = (n, sent, complete, refused)
+    # a burst that is too long is refused in the middle of a block; the block is still open and the correct rest completes it
+    for _ in range(300 if tier == 'quick' else 6000):
+        n = rng.choice([1, 2, 3, 5, 9, 10, 11, 64, 100])
+        d = bytes(rng.getrandbits(8) for _ in range(n))
+        j = rng.randint(0, n - 1)
+        toolong = bytes(rng.getrandbits(8) for _ in range(n - j + rng.randint(1, 4)))
+        ops = ['RHDR:%d' % n] + (['RDATA:' + vf.hx(d[:j])] if j else []) + ['RDATA:' + vf.hx(toolong)]
+        rest = d[j:]
+        cut = rng.randint(0, len(rest))
+        ops += ['RDATA:' + vf.hx(p) for p in (rest[:cut], rest[cut:]) if p]
+        ops.append('RI32:7')
+        c = gen.scenario(256, 8, [(1, b'Q?', ';'.join(ops))], [('I', b'Q?\n')])
+        scases.append(c)
+        sinfo[c] = (n, d, True, True)
     # data after a block that was completed in one call (or after a binary array) is beyond the announced length too
     for _ in range(300 if tier == 'quick' else 5000):
         n = rng.choice([0, 1, 2, 5, 16])
